@@ -94,14 +94,32 @@ func main() {
 		"past-genesis); per step = op kind x size class x tip class x filter/block tip relation x previous op class; " +
 		"fault attempt = op kind x size class x fault kind@target#index x file-descriptor state x tip class. " +
 		"Non-trivial: a plain history with a non-empty append and a rollback; a fault attempt whose fault fired.")
+	r.Rule("Part 3 (torn / double fault): histories (4 fixed, seed-independent: block and filter store x {a fraction of one " +
+		"record, whole records and a fraction}; the rest seeded: an ordinary prefix of 0-20 calls, then 1-3 episodes) in " +
+		"which one append of batch size 1..60 on either store runs under a fault SEQUENCE inside the one call: its " +
+		"flat-file write lets through only 1..rec-1 bytes / k whole records and a fraction / k whole records (or the " +
+		"write succeeds and the index update fails), AND the clean-up truncate of the same call fails as well (once, " +
+		"or every truncate of the call). The call must report failure. Nothing can remove the left-over bytes before " +
+		"the next reopen, so until then the store is judged on everything that was acknowledged (tips, every height up " +
+		"to the tips, every hash ever written, ancestors, locators equal the list from before the call); reads beyond " +
+		"the tip of that store are left unjudged until the reopen only when at least one whole left-over record is in " +
+		"the file. The stores are then closed and reopened: from there on the COMPLETE comparison with the list from " +
+		"before the failed call applies again, after the reopen itself and after every one of the following calls " +
+		"(retry of the same batch or a new batch on the same store, the other store, rollbacks first, rollback and " +
+		"re-add, more reopens, further episodes), at the end and after a final reopen. One evaluation per double-fault " +
+		"append (op x batch class x left-over class x fraction class x file-descriptor state x tip class x tip relation " +
+		"x previous op) and per history; non-trivial when both faults fired and the call reported failure.")
 	r.Assume("Caller contract the real callers obey (blockmanager.go, chainimport): block batches carry consecutive " +
 		"heights tip+1..; filter headers are written only for heights already in the block store, the last element " +
 		"carries the block hash (block-manager style) or all do (importer style); on a rollback the filter store is " +
 		"rolled back first (newTip = PrevBlock of the block at the filter tip) and the block store afterwards, so the " +
 		"filter tip never exceeds the block tip; FetchHeaderAncestors is asked with n <= height(stop).")
-	r.Assume("One single transient fault per call (the k-th Write/Seek/Stat/Truncate/Sync of a flat file or the k-th " +
-		"walletdb Update fails once). Faults inside the recovery path of an already failing append (double faults) are " +
-		"not enumerated: no implementation can restore the file when the restoring truncate itself fails.")
+	r.Assume("Part 2: one single transient fault per call (the k-th Write/Seek/Stat/Truncate/Sync of a flat file or the " +
+		"k-th walletdb Update fails once). Part 3: one double fault per call, of the one shape 'the append's write or " +
+		"index update fails and the truncate that should undo it fails too'. No implementation can restore the file " +
+		"when the restoring truncate itself fails, therefore no further write call is made on the stores between such " +
+		"an append and the next reopen (reads only), and the left-over bytes themselves are never inspected: only the " +
+		"answers of the read methods are. Other double faults are not enumerated.")
 	r.Assume("bbolt rolls an Update back completely when its closure returns an error; the harness File wrapper is a " +
 		"transparent pass-through to the *os.File the store opened when no fault is armed; the database is opened " +
 		"with a persisted freelist (noFreelistSync=false, a tuning knob headerfs does not depend on); 'not found' = the " +
